@@ -799,13 +799,17 @@ func (ex *Exec) execFrom(st *State, b *ssa.BasicBlock, idx int, pred *ssa.BasicB
 							c.st.top().names["call_"+y.Common().Method.Name()] = namedVal{v: c.val}
 						}
 						if f := y.Common().StaticCallee(); f != nil {
-							c.st.top().names["call_"+f.Name()] = namedVal{v: c.val}
-							if _, seen := c.st.top().names["first_"+f.Name()]; !seen {
-								c.st.top().names["first_"+f.Name()] = namedVal{v: c.val}
+							fname := f.Name()
+							if o := f.Origin(); o != nil {
+								fname = o.Name() // instances of a generic function are named like the function
+							}
+							c.st.top().names["call_"+fname] = namedVal{v: c.val}
+							if _, seen := c.st.top().names["first_"+fname]; !seen {
+								c.st.top().names["first_"+fname] = namedVal{v: c.val}
 							}
 							if c.val.K == VTuple {
 								for i, e := range c.val.Fs {
-									c.st.top().names[fmt.Sprintf("call_%s_%d", f.Name(), i)] = namedVal{v: e}
+									c.st.top().names[fmt.Sprintf("call_%s_%d", fname, i)] = namedVal{v: e}
 								}
 							}
 						}
